@@ -10,14 +10,26 @@ PROP = dict(
         "M3d.C03.bounded_sound / bounds_ordered / wrapper_does_not_cut_* cover), mode f at Float (same operations in the same order); "
         "kinds cab/cyl/cone/torus/capsule/sphere compare circleAxisBound and the primitive Min()/Max() bit for bit with the model that "
         "circle_axis_bound / cylinder_bounded / cone_bounded / torus_bounded / capsule_bounded / sphere_bounded are about; kind `shell` "
-        "prints the property's requirement `ok` for an opaque leaf (valid bounds, nothing contained on the shell outside the box)"
+        "prints the property's requirement `ok` for an opaque leaf (valid bounds, nothing contained on the shell outside the box); "
+        "kind `polycut` (q and f) builds the REAL ConvexPolytope.Solid() (2-D and 3-D) from constraints {Normal: n*s, Max: m*s} with one positive "
+        "factor s per constraint and compares `valid bounds` + Contains/in-box on points that the half-space test puts robustly inside or outside "
+        "with the model's polyContains on the UNSCALED system {n, m}: justified by polytope_scale_invariant (the half-space test ignores the "
+        "factors), wrapper_does_not_cut_polytope (with an enclosing box the solid IS the half-space test) and, for the model of Mesh(), "
+        "mesh_vertices_scale_invariant + polytope_box_encloses + wrapper_does_not_cut_polytope_mesh(2); kind `pvert` validates the faithful model "
+        "of an internal step: the vertices Mesh() enumerates (real vertex()/spatialEpsilon() through the hook VerifPolytopeVertices) bit for bit "
+        "against meshVerts3/meshVerts2 at Float, on the scaled systems"
     ),
     rule=(
         "random expression trees of depth 0..6 (2D and 3D, half exact/half float) over Rect/Sphere/Circle leaves and opaque leaves "
         "(every primitive and toolbox part), built with ForceSolidBounds, CacheSolidBounds, JoinedSolid, IntersectedSolid (incl. disjoint "
         "boxes), SubtractedSolid, StackSolids, StackedSolid, TransformSolid over Translate/Scale/VecScale (negative, anisotropic)/"
         "Matrix3/Matrix2/JoinedTransform, ProfileSolid, CrossSectionSolid, SliceSolid, RevolveSolid, ClampAxis*, SDFToSolid (out/inset), "
-        "SmoothJoin, NewColliderSolidInset/Hollow, MetaballSolid, ConvexPolytope.Solid; per tree ~45 query points: a thin shell just "
+        "SmoothJoin, NewColliderSolidInset/Hollow, MetaballSolid, ConvexPolytope.Solid (modelled `poly` leaves in 2-D and 3-D, both modes: "
+        "rect + oblique cuts, intercept-form simplices x/a+y/b+z/c<=1 with intercepts up to 2e5, intercept-form boxes and cross polytopes, "
+        "duplicated and touching redundant constraints; every constraint multiplied by its own factor: none, one 2^k for all, independent 2^k "
+        "with k in [-60,60], mixed long/short (2^-60..2^-35 next to 2^35..2^60), some short, decimal factors — #stat poly_min_normal_* gives "
+        "the distribution of the shortest normal); the same systems feed the dedicated streams polycut (robustly-inside points next to every "
+        "vertex, on faces and edges, and the centre) and pvert; per tree ~45 query points: a thin shell just "
         "outside each face of the reported box (exact: 1/1024..1/4; float: 1.01e-8*scale..), faces/edges/corners, images of the operands' "
         "corners and surfaces. exact mode: dyadic parameters (5 fractional bits, scales ±2^k, unimodular integer matrices) so that every Go "
         "+,-,* is exact — outputs must be EQUAL to the Rat model. distinct = distinct operation lines; #stat counters give the number of "
@@ -28,12 +40,21 @@ PROP = dict(
         "source on every check); M3d.KernelsTie.Bounded.* re-prove against it that Min()/Max() of Sphere, Capsule, Cylinder, Cone and "
         "Torus (with circleAxisBound and its variable array index), Rect.Contains, Sphere.Contains and LinearConstraint.Contains are the "
         "boxes and membership tests of the primitive leaves (sphereS, capsuleBox, cylinderBox, coneBox, torusBox, inB, "
-        "sphereContainsSqrt, polyContains) of the C03 expression trees",
+        "sphereContainsSqrt, polyContains) of the C03 expression trees; the model2d twins (Circle.Min/Max/Contains, Capsule.Min/Max, "
+        "Rect.Contains, LinearConstraint.Contains, Coord.Norm) are the d3=false instances of the same definitions; Matrix3.Det / "
+        "Matrix3.MulColumnInv / Matrix2.Det / Matrix2.MulColumnInv of the matrix ConvexPolytope.vertex builds are det3 / mulColInv3 / det2 / "
+        "mulColInv2 of the polytope model, operation for operation (rfl)",
         "modelled, not verified: float64 as an ordered field (mode q is exact by construction of the inputs; mode f re-runs the same model at IEEE doubles and must agree bit for bit, signed zeros identified)",
         "opaque leaves (Cylinder/Cone/Torus/Capsule Contains, Triangle, toolbox ScrewSolid, Teardrop2D/3D, SpurGear/HelicalGear, involute profile, LineJoin, RadialCurve, TriangularLine/Ball, HeightMap, RectSet, Ramp, bitmap, mesh solids): their Contains is a function parameter; the hypothesis `Bounded leaf` of bounded_sound is TESTED on the shell stream (kind shell) and is an assumption, not a theorem",
         "SDF / Collider / Metaball operands enter through their contracts (SDFBoxed, ColOK, MBBounded) — assumptions about the operand, used only by the does-not-cut theorems; boundedness of the derived solids needs none of them",
         "math.Sqrt is the parameter sq with sq(x)^2 = x, sq(x) >= 0 (satisfied by Real.sqrt; example in Props/C03.lean); Sphere.Contains is executed in the square-root-free form proved equal to it (sphere_contains_sq_iff)",
-        "ConvexPolytope.Solid: the box is the bounds of Mesh() and is taken as given; RevolveSolid/Metaball trees run in float mode only (sqrt)",
+        "ConvexPolytope.Solid: in the expression trees the box is the bounds of the real Mesh() and is taken as given; that this box encloses the "
+        "half-space intersection is PROVED for the model of Mesh()'s vertex enumeration (polytope_box_encloses: bounded system, no basic point "
+        "rejected by the 1e-8 conditioning test; scale invariance: mesh_vertices_scale_invariant), the model of vertex()/spatialEpsilon() is "
+        "tied by kind pvert (bit for bit) and by M3d.KernelsTie.Bounded.matrix3_det/matrix3_mulColumnInv/matrix2_* (regenerated Det and "
+        "MulColumnInv), and TESTED on the implementation by kind polycut and the site c03:wrapper-cuts:polytope; not modelled: addConvexFace, "
+        "Repair(epsilon), removal of degenerate triangles (they move a vertex by at most spatialEpsilon = 1e-8*extent; probe points keep a "
+        "margin of 1e-6*extent). RevolveSolid/Metaball trees run in float mode only (sqrt)",
         "rounding: in float mode a point less than 1e-8*scale outside the box that is reported contained is only counted (stat float_leak_within_1e-8_slack, shell_ulp_contained_*): circleAxisBound's exact margin over the true extent is eps^2/(s+eps) ~ 1e-16, below rounding; everything above 1e-8*scale is a violation",
     ],
     assumptions=[
@@ -44,8 +65,10 @@ PROP = dict(
         "Machine-checked (Lean 4, every linear ordered field): for the deep embedding SolidExpr of the library's solid constructors with "
         "bounds/contains computed as the Go code computes Min/Max/Contains — bounded_sound (contains p => p in bounds, by structural induction "
         "from bounded leaves), bounds_ordered (min <= max incl. disjoint IntersectedSolid, negative/anisotropic scales, collider insets), "
-        "wrapper_does_not_cut_* for Cache/Transform/Profile/CrossSection/Slice/Revolve/SDFToSolid/SmoothJoin/ColliderSolid inset+hollow/"
-        "MetaballSolid, transform_bounds (ApplyBounds encloses the image for Translate/Scale/VecScale/Matrix/JoinedTransform), and the closed-"
+        "wrapper_does_not_cut_* for Cache/StackedSolid/Transform/Profile/CrossSection/Slice/Revolve/SDFToSolid/SmoothJoin/ColliderSolid "
+        "inset+hollow/MetaballSolid/ConvexPolytope.Solid (un-normalised constraints: polytope_scale_invariant, mesh_vertices_scale_invariant, "
+        "polytope_box_encloses — the box of the vertices Mesh() enumerates encloses every bounded, well-conditioned half-space intersection, "
+        "2-D and 3-D), transform_bounds (ApplyBounds encloses the image for Translate/Scale/VecScale/Matrix/JoinedTransform), and the closed-"
         "form leaves sphere/rect/capsule/cylinder/cone/torus with circle_axis_bound (circleAxisBound >= the true extent sqrt(1-n_i^2)). "
         "Tied to /repo on every run by building the same expressions with the real constructors and diffing Min/Max/Contains against the model "
         "(exact at Rat on dyadic inputs, bit-for-bit at Float otherwise), plus direct evaluation of the property on the implementation."
